@@ -361,8 +361,8 @@ Proof.
   - intros (nd & Hid & Hin). apply filter_In in Hin as [Hin Hq].
     apply In_nth_error in Hin as (j & Hj).
     destruct (gi_slot _ _ _ _ G _ _ Hj) as (Hd & Hid' & _).
-    assert (j = i) by congruence. subst j. exists nd. split; auto.
-    rewrite Hd in Hq. simpl in Hq. unfold is_tip in Hq. destruct (nchildren nd); auto; discriminate.
+    assert (j = i) by congruence. subst j. exists nd. split; [congruence|].
+    rewrite Hd in Hq. simpl in Hq. unfold is_tip in Hq. destruct (nchildren nd); auto. discriminate Hq.
   - intros (nd & Hj & Hc). destruct (gi_slot _ _ _ _ G _ _ Hj) as (Hd & Hid' & _).
     exists nd. split; auto. apply filter_In. split; [eapply nth_error_In; eauto|].
     unfold is_tip. rewrite Hd, Hc. reflexivity.
@@ -388,5 +388,424 @@ Qed.
 
 Lemma length_get_leaves t : length (get_leaves t) = n_leaves t.
 Proof. unfold get_leaves, n_leaves. apply map_length. Qed.
+
+(* ================================================================================================ *)
+(* 4. naming the tips changes names only                                                             *)
+(* ================================================================================================ *)
+Definition ren1 (nd nd' : node) : Prop := exists nm, nd' = set_nname nd nm.
+Definition renamed t t' : Prop := Forall2 ren1 t t'.
+
+Lemma renamed_refl t : renamed t t.
+Proof. induction t; constructor; auto. exists (nname a). destruct a; reflexivity. Qed.
+
+Lemma renamed_trans t1 t2 t3 : renamed t1 t2 -> renamed t2 t3 -> renamed t1 t3.
+Proof.
+  intros H; revert t3; induction H as [|x y l l' Hxy Hll IH]; intros t3 H3; inversion H3 as [|y' z l'' l3 Hyz Hl3]; subst;
+    constructor.
+  - destruct Hxy as (a & ->). destruct Hyz as (c & ->). exists c. reflexivity.
+  - apply IH; auto.
+Qed.
+
+Lemma renamed_replace t i nd nm : nth_error t i = Some nd -> renamed t (replace_nth i (set_nname nd nm) t).
+Proof.
+  revert i; induction t as [|a t IH]; intros [|i] H; simpl in *; try discriminate.
+  - injection H as ->. constructor; [exists nm; auto|apply renamed_refl].
+  - constructor; [exists (nname a); destruct a; reflexivity|]. apply IH; auto.
+Qed.
+
+Lemma renamed_length t t' : renamed t t' -> length t' = length t.
+Proof. induction 1; simpl; auto. Qed.
+
+Lemma renamed_nth_r t t' i nd' : renamed t t' -> nth_error t' i = Some nd' ->
+  exists nd nm, nth_error t i = Some nd /\ nd' = set_nname nd nm.
+Proof.
+  intros H; revert i; induction H; intros [|i] Hi; simpl in *; try discriminate; eauto.
+  injection Hi as <-. destruct H as (nm & ->). eauto.
+Qed.
+
+Lemma renamed_nth_l t t' i nd : renamed t t' -> nth_error t i = Some nd ->
+  exists nm, nth_error t' i = Some (set_nname nd nm).
+Proof.
+  intros H; revert i; induction H; intros [|i] Hi; simpl in *; try discriminate; eauto.
+  injection Hi as <-. destruct H as (nm & ->). eauto.
+Qed.
+
+Lemma renamed_n_leaves t t' : renamed t t' -> n_leaves t' = n_leaves t.
+Proof.
+  unfold n_leaves. induction 1; simpl; auto. destruct H as (nm & ->). simpl.
+  unfold is_tip. simpl. destruct (negb (ndeleted x) && _); simpl; auto.
+Qed.
+
+Lemma Rep_renamed t t' : renamed t t' -> forall r p d i, Rep t p d i r -> Rep t' p d i r.
+Proof.
+  intros Hren. induction r using RepLib.rtree_ind'. intros p d j HR.
+  destruct (RepLib.Rep_inv _ _ _ _ _ HR) as (n & cs' & Heq & Hn & Hdel & Hid & Hp & Hd & HF & He1 & He2).
+  injection Heq as -> ->.
+  destruct (renamed_nth_l _ _ _ _ Hren Hn) as (nm & Hn').
+  apply Rep_node with (n := set_nname n nm); simpl; auto.
+  - eapply Forall2_impl_In; [|eassumption]. simpl. intros a c _ Hc HRc.
+    rewrite Forall_forall in H. eapply H; eauto.
+  - intros c nc Hc Hnc. destruct (renamed_nth_r _ _ _ _ Hren Hnc) as (nc0 & nm0 & Hnc0 & ->). simpl. eauto.
+Qed.
+
+Lemma live_renamed t t' i : renamed t t' -> (live t' i <-> live t i).
+Proof.
+  intros Hren. unfold live. split.
+  - intros (nd' & Hn & Hd). destruct (renamed_nth_r _ _ _ _ Hren Hn) as (nd & nm & Hnd & ->). eauto.
+  - intros (nd & Hn & Hd). destruct (renamed_nth_l _ _ _ _ Hren Hn) as (nm & Hn'). eauto.
+Qed.
+
+Lemma WFS_renamed t t' : renamed t t' -> WFS t -> WFS t'.
+Proof.
+  intros Hren [Hwf Hse]. split.
+  - destruct Hwf as [Hno|(root & r & HR & Hnd & Hlive)].
+    + left. intros i Hi. apply (Hno i). apply (live_renamed _ _ _ Hren); auto.
+    + right. exists root, r. splits; auto.
+      * eapply Rep_renamed; eauto.
+      * intros i Hi. apply Hlive. apply (live_renamed _ _ _ Hren); auto.
+  - intros i nd' Hn. destruct (renamed_nth_r _ _ _ _ Hren Hn) as (nd & nm & Hnd & ->). simpl. eauto.
+Qed.
+
+Lemma GI_renamed P b k t t' : renamed t t' -> GI P b k t -> GI P b k t'.
+Proof.
+  intros Hren G. constructor.
+  - eapply WFS_renamed; eauto. apply G.
+  - rewrite (renamed_length _ _ Hren). apply G.
+  - rewrite (renamed_n_leaves _ _ Hren). apply G.
+  - intros i nd' Hn. destruct (renamed_nth_r _ _ _ _ Hren Hn) as (nd & nm & Hnd & ->). simpl.
+    apply (gi_slot _ _ _ _ G _ _ Hnd).
+  - destruct (gi_root _ _ _ _ G) as (n0 & H0 & Hp0 & He0 & Hk0).
+    destruct (renamed_nth_l _ _ _ _ Hren H0) as (nm & Hn'). exists (set_nname n0 nm). simpl. auto.
+  - intros i nd' Hn Hi. destruct (renamed_nth_r _ _ _ _ Hren Hn) as (nd & nm & Hnd & ->). simpl.
+    apply (gi_nonroot _ _ _ _ G _ _ Hnd Hi).
+Qed.
+
+Lemma tipat_renamed t t' i : renamed t t' -> (tipat t' i <-> tipat t i).
+Proof.
+  intros Hren. unfold tipat. split.
+  - intros (nd' & Hn & Hc). destruct (renamed_nth_r _ _ _ _ Hren Hn) as (nd & nm & Hnd & ->). eauto.
+  - intros (nd & Hn & Hc). destruct (renamed_nth_l _ _ _ _ Hren Hn) as (nm & Hn'). eauto.
+Qed.
+
+Definition name_step (t : arena) (p : nat * nat) : outcome arena :=
+  upd t (snd p) (fun x => set_nname x (Some (tip_name (fst p)))).
+
+Lemma name_loop_spec : forall l s t t',
+  foldM name_step (combine (seq s (length l)) l) t = Ok t' -> NoDup l ->
+  renamed t t' /\
+  (forall j i, nth_error l j = Some i ->
+     exists nd', nth_error t' i = Some nd' /\ nname nd' = Some (tip_name (s + j))) /\
+  (forall i nd', ~ In i l -> nth_error t' i = Some nd' ->
+     exists nd, nth_error t i = Some nd /\ nname nd' = nname nd).
+Proof.
+  induction l as [|a l IH]; intros s t t' H Hnd.
+  - simpl in H. injection H as <-. splits.
+    + apply renamed_refl.
+    + intros [|j] i Hj; discriminate.
+    + intros i nd' _ Hi. eauto.
+  - simpl in H. apply bind_Ok in H as (t1 & H1 & H). unfold name_step in H1. simpl in H1.
+    apply upd_inv in H1 as (n & Hg & ->). apply get_Ok in Hg as [Hn Hdel].
+    apply NoDup_cons_iff in Hnd as [Hna Hnd].
+    destruct (IH _ _ _ H Hnd) as (Hren & Hnamed & Hother).
+    pose proof (nth_error_Some_lt _ _ _ Hn) as Hlt.
+    splits.
+    + eapply renamed_trans; [apply renamed_replace; eauto|eauto].
+    + intros [|j] i Hj; simpl in Hj.
+      * injection Hj as <-.
+        destruct (renamed_nth_l _ _ a _ Hren (nth_error_replace_nth_eq _ _ _ Hlt)) as (nm & Hn').
+        eexists. split; eauto.
+        destruct (Hother _ _ Hna Hn') as (nd & Hnd1 & ->).
+        rewrite nth_error_replace_nth_eq in Hnd1 by auto. injection Hnd1 as <-. simpl.
+        rewrite Nat.add_0_r. reflexivity.
+      * destruct (Hnamed _ _ Hj) as (nd' & Hn' & Hnm). exists nd'. split; auto.
+        rewrite Hnm. f_equal. f_equal. lia.
+    + intros i nd' Hi Hn'. simpl in Hi.
+      destruct (Hother i nd') as (nd & Hnd1 & Hnm); auto.
+      rewrite nth_error_replace_nth_neq in Hnd1 by (intros ->; tauto). eauto.
+Qed.
+
+Lemma name_tips_spec l t t' :
+  name_tips t l = Ok t' -> NoDup l ->
+  renamed t t' /\
+  (forall j i, nth_error l j = Some i ->
+     exists nd', nth_error t' i = Some nd' /\ nname nd' = Some (tip_name j)) /\
+  (forall i nd', ~ In i l -> nth_error t' i = Some nd' ->
+     exists nd, nth_error t i = Some nd /\ nname nd' = nname nd).
+Proof. intros H Hnd. apply (name_loop_spec l 0 t t'); auto. Qed.
+
+(* ================================================================================================ *)
+(* 5. what is established for a generated tree                                                       *)
+(* ================================================================================================ *)
+Definition names_none t : Prop := forall i nd, nth_error t i = Some nd -> nname nd = None.
+
+Lemma names_none_t0 : names_none t0.
+Proof. intros [|[|i]] nd H; try discriminate. injection H as <-. reflexivity. Qed.
+
+Lemma names_none_split t p np e1 e2 :
+  nth_error t p = Some np -> names_none t -> names_none (split_arena t p np None None e1 e2).
+Proof.
+  intros Hn Hnone j nd Hj.
+  destruct (split_slots_inv _ _ _ _ _ _ _ _ _ Hn Hj) as [[-> ->]|[[-> ->]|[[-> ->]|(Hne & Hjl & Hj')]]]; eauto.
+  destruct (split_node_fields np (length t) e1 e2) as (_ & _ & _ & _ & _ & ->). eauto.
+Qed.
+
+(* every leaf is named Tip_j for some j in [lo, lo + n), and different leaves carry different names *)
+Definition names_ok (lo n : nat) t : Prop :=
+  (forall i nd, nth_error t i = Some nd -> nchildren nd = [] ->
+     exists j, lo <= j < lo + n /\ nname nd = Some (tip_name j)) /\
+  (forall i i' nd nd', nth_error t i = Some nd -> nth_error t i' = Some nd' ->
+     nchildren nd = [] -> nchildren nd' = [] -> i <> i' -> nname nd <> nname nd').
+
+Lemma tips_length P b k t l :
+  GI P b k t -> NoDup l -> (forall i, In i l <-> tipat t i) -> length l = k + 1.
+Proof.
+  intros G Hnd Hl. rewrite <- (gi_nl _ _ _ _ G), <- length_get_leaves.
+  apply Permutation_length. apply NoDup_Permutation; auto.
+  - eapply NoDup_get_leaves; eauto.
+  - intros i. rewrite Hl. symmetry. eapply In_get_leaves; eauto.
+Qed.
+
+Lemma name_tips_ok P b k t l t' :
+  GI P b k t -> NoDup l -> (forall i, In i l <-> tipat t i) -> name_tips t l = Ok t' ->
+  GI P b k t' /\ names_ok 0 (k + 1) t'.
+Proof.
+  intros G Hnd Hl H. pose proof (tips_length _ _ _ _ _ G Hnd Hl) as Hlen.
+  destruct (name_tips_spec _ _ _ H Hnd) as (Hren & Hnamed & _).
+  split; [eapply GI_renamed; eauto|].
+  assert (Hidx : forall i nd, nth_error t' i = Some nd -> nchildren nd = [] ->
+            exists j, nth_error l j = Some i /\ nname nd = Some (tip_name j)).
+  { intros i nd Hi Hc.
+    assert (Hin : In i l). { apply Hl. apply (tipat_renamed _ _ _ Hren). exists nd; auto. }
+    apply In_nth_error in Hin as (j & Hj). exists j. split; auto.
+    destruct (Hnamed _ _ Hj) as (nd' & Hn' & Hnm). congruence. }
+  split.
+  - intros i nd Hi Hc. destruct (Hidx _ _ Hi Hc) as (j & Hj & Hnm). exists j. split; auto.
+    apply nth_error_Some_lt in Hj. lia.
+  - intros i i' nd nd' Hi Hi' Hc Hc' Hne E.
+    destruct (Hidx _ _ Hi Hc) as (j & Hj & Hnm). destruct (Hidx _ _ Hi' Hc') as (j' & Hj' & Hnm').
+    rewrite Hnm, Hnm' in E. assert (E' : tip_name j = tip_name j') by congruence.
+    apply tip_name_inj in E'. subst j'. congruence.
+Qed.
+
+Lemma take2_ok P b (lens : list L) l1 l2 lens' :
+  Forall P lens -> take2 b lens = Some (l1, l2, lens') ->
+  edge_ok P b l1 /\ edge_ok P b l2 /\ Forall P lens'.
+Proof.
+  intros HF H. unfold take2 in H. destruct b.
+  - destruct lens as [|a [|c r]]; try discriminate. injection H as <- <- <-.
+    inversion HF as [|? ? Pa HF1]; subst. inversion HF1 as [|? ? Pc HF2]; subst.
+    simpl. splits; eauto.
+  - injection H as <- <- <-. simpl. auto.
+Qed.
+
+(* ---- ETE3-like ------------------------------------------------------------------------------------ *)
+Lemma onat_eqb_Some o p : onat_eqb o (Some p) = true -> o = Some p.
+Proof. destruct o; simpl; try discriminate. intros H. apply Nat.eqb_eq in H. congruence. Qed.
+
+Lemma hd_error_tl {A} (l : list A) x : hd_error l = Some x -> l = x :: tl l.
+Proof. destruct l; simpl; congruence. Qed.
+
+Lemma last_opt_removelast {A} (l : list A) x : last_opt l = Some x -> l = removelast l ++ [x].
+Proof.
+  induction l as [|a [|c l] IH]; intros H; try discriminate.
+  - simpl in H. injection H as ->. reflexivity.
+  - change (last_opt (a :: c :: l)) with (last_opt (c :: l)) in H.
+    change (removelast (a :: c :: l)) with (a :: removelast (c :: l)). simpl app. f_equal. auto.
+Qed.
+
+Lemma deq_step t p np nm1 nm2 e1 e2 deq dq :
+  Permutation deq (p :: dq) -> NoDup deq -> (forall i, In i deq <-> tipat t i) ->
+  nth_error t p = Some np -> nchildren np = [] ->
+  NoDup (dq ++ [length t; S (length t)]) /\
+  forall i, In i (dq ++ [length t; S (length t)]) <-> tipat (split_arena t p np nm1 nm2 e1 e2) i.
+Proof.
+  intros Hperm Hnd Hl Hn Hc.
+  assert (Hnd' : NoDup (p :: dq)) by (eapply Permutation_NoDup; eauto).
+  apply NoDup_cons_iff in Hnd' as [Hp Hdq].
+  assert (Hin : forall i, In i dq <-> tipat t i /\ i <> p).
+  { intros i. rewrite <- Hl. split.
+    - intros Hi. split; [eapply Permutation_in; [apply Permutation_sym; eauto|right; auto]|intros ->; auto].
+    - intros [Hi Hne]. eapply Permutation_in in Hi; [|eauto]. destruct Hi; congruence. }
+  split.
+  - apply NoDup_app_iff. splits; auto.
+    + repeat constructor; simpl; intuition lia.
+    + intros j Hj [<-|[<-|[]]]; apply Hin in Hj as [Hj _]; apply tipat_lt in Hj; lia.
+  - intros i. rewrite (tipat_split _ _ _ _ _ _ _ _ Hn Hc), in_app_iff, Hin. simpl. intuition.
+Qed.
+
+Lemma deq_choice (deq : list nat) p dq :
+  (if onat_eqb (hd_error deq) (Some p) then Some (tl deq)
+   else if onat_eqb (last_opt deq) (Some p) then Some (removelast deq) else None) = Some dq ->
+  Permutation deq (p :: dq).
+Proof.
+  destruct (onat_eqb (hd_error deq) (Some p)) eqn:E1.
+  - intros [= <-]. apply onat_eqb_Some, hd_error_tl in E1. rewrite <- E1. reflexivity.
+  - destruct (onat_eqb (last_opt deq) (Some p)) eqn:E2; [|discriminate].
+    intros [= <-]. apply onat_eqb_Some, last_opt_removelast in E2. rewrite E2 at 1.
+    apply Permutation_sym, Permutation_cons_append.
+Qed.
+
+(* one loop step: a tip is split by two add_child *)
+Lemma split_step P b k t p nm1 nm2 e1 e2 t1 c1 t2 c2 :
+  GI P b k t -> tipat t p -> edge_ok P b e1 -> edge_ok P b e2 ->
+  add_child t (new_node nm1 None) p e1 = Ok (t1, c1) ->
+  add_child t1 (new_node nm2 None) p e2 = Ok (t2, c2) ->
+  exists np, nth_error t p = Some np /\ nchildren np = [] /\ c1 = length t /\ c2 = S (length t) /\
+             t2 = split_arena t p np nm1 nm2 e1 e2 /\ GI P b (S k) t2.
+Proof.
+  intros G (np0 & Hn0 & Hc0) He1 He2 H1 H2.
+  destruct (split2_inv _ _ _ _ _ _ _ _ _ _ H1 H2) as (np & Hg & -> & -> & -> & Hwf).
+  apply get_Ok in Hg as [Hn Hd]. assert (np0 = np) by congruence. subst np0.
+  exists np. splits; auto. apply GI_split; auto. apply Hwf. apply G.
+Qed.
+
+Definition EI (P : L -> Prop) (b : bool) (k : nat) t (deq : list nat) : Prop :=
+  GI P b k t /\ names_none t /\ NoDup deq /\ (forall i, In i deq <-> tipat t i).
+
+Lemma ete3_loop_inv P b : forall steps k t deq parents lens t' deq',
+  EI P b k t deq -> Forall P lens ->
+  gen_ete3_loop steps b t deq parents lens = Ok (Some (t', deq')) ->
+  EI P b (k + steps) t' deq'.
+Proof.
+  induction steps as [|s IH]; intros k t deq parents lens t' deq' HE HF H; simpl in H.
+  - destruct parents; [|discriminate]. destruct lens; [|discriminate]. injection H as <- <-.
+    rewrite Nat.add_0_r. auto.
+  - destruct parents as [|p ps]; [discriminate|].
+    destruct (take2 b lens) as [[[l1' l2'] lens']|] eqn:Ht; [|discriminate].
+    destruct (take2_ok _ _ _ _ _ _ HF Ht) as (He1 & He2 & HF').
+    destruct HE as (G & Hnone & Hnd & Hl).
+    destruct (if onat_eqb (hd_error deq) (Some p) then Some (tl deq)
+              else if onat_eqb (last_opt deq) (Some p) then Some (removelast deq) else None) as [dq|] eqn:Edq;
+      [|discriminate].
+    apply deq_choice in Edq.
+    apply bind_Ok in H as ([t1 c1] & H1 & H). apply bind_Ok in H as ([t2 c2] & H2 & H).
+    assert (Htp : tipat t p). { apply Hl. eapply Permutation_in; [apply Permutation_sym; eauto|left; auto]. }
+    destruct (split_step _ _ _ _ _ _ _ _ _ _ _ _ _ G Htp He1 He2 H1 H2) as (np & Hn & Hc & -> & -> & -> & G').
+    replace (k + S s) with (S k + s) by lia.
+    eapply IH; [|eauto|eauto].
+    destruct (deq_step t p np None None l1' l2' deq dq Edq Hnd Hl Hn Hc) as (Hnd' & Hl').
+    split; [auto|]. split; [apply names_none_split; auto|]. split; auto.
+Qed.
+
+Definition gen_final (P : L -> Prop) (b : bool) (lo n : nat) t : Prop :=
+  GI P b (n - 1) t /\ names_ok lo n t.
+
+Theorem ete3_final n b parents (lens : list L) t :
+  generate_tree n b parents lens = Ok (Some t) -> gen_final (fun l => In l lens) b 0 n t.
+Proof.
+  unfold generate_tree. destruct (Nat.eqb_spec n 0) as [|Hn0]; [discriminate|].
+  change (fst (add (@nil node) (new_node None None))) with t0. intros H.
+  change (let '(t1, _) := add (@nil node) (new_node None None) in
+          r <- gen_ete3_loop (n - 1) b t1 [0] parents lens ;;
+          match r with None => Ok None | Some (t, deq) => t' <- name_tips t deq ;; Ok (Some t') end)
+    with (r <- gen_ete3_loop (n - 1) b t0 [0] parents lens ;;
+          match r with None => Ok None | Some (t, deq) => t' <- name_tips t deq ;; Ok (Some t') end) in H.
+  apply bind_Ok in H as ([[t1 deq]|] & Hloop & H); [|discriminate].
+  apply bind_Ok in H as (t' & Hname & H). injection H as <-.
+  assert (HE0 : EI (fun l => In l lens) b 0 t0 [0]).
+  { split; [apply GI_init|]. split; [apply names_none_t0|]. split.
+    - repeat constructor. simpl; tauto.
+    - intros i. rewrite tipat_t0. simpl. intuition. }
+  eapply ete3_loop_inv in Hloop; [|eauto|apply Forall_forall; auto].
+  destruct Hloop as (G & _ & Hnd & Hl). simpl in G.
+  destruct (name_tips_ok _ _ _ _ _ _ G Hnd Hl Hname) as (G' & Hnames).
+  split; auto. replace (n - 1 + 1) with n in Hnames by lia. auto.
+Qed.
+
+
+(* ---- Yule -------------------------------------------------------------------------------------------- *)
+Lemma yule_unfold fuel n b t parents (lens : list L) :
+  gen_yule_loop fuel n b t parents lens =
+  if Nat.eqb (n_leaves t) n then
+    match parents, lens with [], [] => Ok (Some t) | _, _ => Ok None end
+  else
+  match fuel with
+  | 0 => OutOfFuel
+  | S f =>
+      match parents, take2 b lens with
+      | p :: ps, Some (l1', l2', lens') =>
+          if negb (mem_nat p (get_leaves t)) then Ok None else
+          '(t1, _) <- add_child t (new_node None None) p l1' ;;
+          '(t2, _) <- add_child t1 (new_node None None) p l2' ;;
+          gen_yule_loop f n b t2 ps lens'
+      | _, _ => Ok None
+      end
+  end.
+Proof. destruct fuel; reflexivity. Qed.
+
+Lemma yule_loop_inv P b n : forall fuel k t parents lens t',
+  GI P b k t -> names_none t -> Forall P lens ->
+  gen_yule_loop fuel n b t parents lens = Ok (Some t') ->
+  GI P b (n - 1) t' /\ names_none t'.
+Proof.
+  induction fuel as [|f IH]; intros k t parents lens t' G Hnone HF H; rewrite yule_unfold in H.
+  - destruct (Nat.eqb_spec (n_leaves t) n) as [E|E]; [|discriminate].
+    destruct parents; [|discriminate]. destruct lens; [|discriminate]. injection H as <-.
+    rewrite (gi_nl _ _ _ _ G) in E. subst n. replace (k + 1 - 1) with k by lia. auto.
+  - destruct (Nat.eqb_spec (n_leaves t) n) as [E|E].
+    { destruct parents; [|discriminate]. destruct lens; [|discriminate]. injection H as <-.
+      rewrite (gi_nl _ _ _ _ G) in E. subst n. replace (k + 1 - 1) with k by lia. auto. }
+    destruct parents as [|p ps]; [discriminate|].
+    destruct (take2 b lens) as [[[l1' l2'] lens']|] eqn:Ht; [|discriminate].
+    destruct (take2_ok _ _ _ _ _ _ HF Ht) as (He1 & He2 & HF').
+    destruct (mem_nat p (get_leaves t)) eqn:Hm; simpl in H; [|discriminate].
+    apply Stats.mem_nat_In in Hm. apply (In_get_leaves _ _ _ _ _ G) in Hm.
+    apply bind_Ok in H as ([t1 c1] & H1 & H). apply bind_Ok in H as ([t2 c2] & H2 & H).
+    destruct (split_step _ _ _ _ _ _ _ _ _ _ _ _ _ G Hm He1 He2 H1 H2) as (np & Hn & Hc & -> & -> & -> & G').
+    eapply IH; eauto. apply names_none_split; auto.
+Qed.
+
+Theorem yule_final n b parents (lens : list L) t :
+  generate_yule n b parents lens = Ok (Some t) -> gen_final (fun l => In l lens) b 0 n t.
+Proof.
+  unfold generate_yule. destruct (Nat.eqb_spec n 0) as [|Hn0]; [discriminate|]. intros H.
+  change (r <- gen_yule_loop n n b t0 parents lens ;;
+          match r with None => Ok None | Some t => t' <- name_tips t (get_leaves t) ;; Ok (Some t') end
+          = Ok (Some t)) in H.
+  apply bind_Ok in H as ([t1|] & Hloop & H); [|discriminate].
+  apply bind_Ok in H as (t' & Hname & H). injection H as <-.
+  assert (HF : Forall (fun l => In l lens) lens) by (apply Forall_forall; auto).
+  destruct (yule_loop_inv _ b n _ 0 _ _ _ _ (GI_init _ b) names_none_t0 HF Hloop) as (G & _).
+  destruct (name_tips_ok _ _ _ _ _ _ G (NoDup_get_leaves _ _ _ _ G) (fun i => In_get_leaves _ _ _ _ i G) Hname)
+    as (G' & Hnames).
+  split; auto. replace (n - 1 + 1) with n in Hnames by lia. auto.
+Qed.
+
+Lemma safe_yule_loop b n : forall fuel k t parents (lens : list L),
+  GI (fun _ => True) b k t -> k + 1 <= n -> n <= k + 1 + fuel ->
+  safe (gen_yule_loop fuel n b t parents lens).
+Proof.
+  induction fuel as [|f IH]; intros k t parents lens G H1 H2; rewrite yule_unfold;
+    rewrite (gi_nl _ _ _ _ G).
+  - destruct (Nat.eqb_spec (k + 1) n) as [E|E]; [|lia].
+    destruct parents; simpl; auto. destruct lens; simpl; auto.
+  - destruct (Nat.eqb_spec (k + 1) n) as [E|E].
+    { destruct parents; simpl; auto. destruct lens; simpl; auto. }
+    destruct parents as [|p ps]; simpl; auto.
+    destruct (take2 b lens) as [[[l1' l2'] lens']|] eqn:Ht; simpl; auto.
+    assert (HF : Forall (fun _ : L => True) lens) by (apply Forall_forall; auto).
+    destruct (take2_ok _ _ _ _ _ _ HF Ht) as (He1 & He2 & HF').
+    destruct (mem_nat p (get_leaves t)) eqn:Hm; simpl; auto.
+    apply Stats.mem_nat_In in Hm. apply (In_get_leaves _ _ _ _ _ G) in Hm.
+    apply safe_bind; [apply safe_add_child|]. intros [t1 c1] E1.
+    apply safe_bind; [apply safe_add_child|]. intros [t2 c2] E2.
+    destruct (split_step _ _ _ _ _ _ _ _ _ _ _ _ _ G Hm He1 He2 E1 E2) as (np & Hn & Hc & -> & -> & -> & G').
+    eapply IH; eauto; lia.
+Qed.
+
+Theorem yule_no_panic n b parents (lens : list L) : safe (generate_yule n b parents lens).
+Proof.
+  unfold generate_yule. destruct (Nat.eqb_spec n 0) as [|Hn0]; simpl; auto.
+  change (safe (r <- gen_yule_loop n n b t0 parents lens ;;
+          match r with None => Ok None | Some t => t' <- name_tips t (get_leaves t) ;; Ok (Some t') end)).
+  apply safe_bind.
+  - eapply safe_yule_loop; [apply GI_init|lia|lia].
+  - intros [t|] _; simpl; auto. apply safe_bind; [apply safe_name_tips|]. simpl; auto.
+Qed.
+
+Theorem gen_no_panic n b parents (lens : list L) :
+  safe (generate_tree n b parents lens) /\ safe (generate_yule n b parents lens) /\
+  safe (generate_caterpillar n b lens).
+Proof. splits; [apply ete3_no_panic|apply yule_no_panic|apply cat_no_panic]. Qed.
 
 End Gen.
